@@ -194,12 +194,25 @@ def _state_machine_ok(b, B, rest, rsucc):
         for st in blocks[x]["s"]:
             if st[0] == "A" and len(st[1]) > 1 and st[1][0] == 1 and st[1][1] == "*":
                 return False
+    def const_of(st, depth=0):
+        """the constant a statement assigns: an integer literal, or a field-less enum variant (its index = its discriminant), possibly via a temporary"""
+        rv = st[2]
+        if rv[0] == "Use" and rv[1][0] in ("C", "M") and len(rv[1][1]) == 1 and depth < 2:
+            ds = B.defs.get(rv[1][1][0], [])
+            if len(ds) == 1 and ds[0][2] == "assign":
+                return const_of(ds[0][3], depth + 1)
+            return None
+        if rv[0] == "Use" and rv[1][0] == "K" and len(rv[1]) > 3 and isinstance(rv[1][3], int):
+            return rv[1][3]
+        if rv[0] == "Agg" and isinstance(rv[1], list) and rv[1] and rv[1][0] == "adt" and len(rv[1]) > 2 and isinstance(rv[1][2], int) and not rv[2]:
+            return rv[1][2]
+        return None
     cands = {}
     for l, defs in B.defs.items():
         vals = []
         for (bi, si, kind, st) in defs:
-            if kind == "assign" and st[1] == [l] and st[2][0] == "Use" and st[2][1][0] == "K" and len(st[2][1]) > 3 and isinstance(st[2][1][3], int):
-                vals.append(st[2][1][3])
+            if kind == "assign" and st[1] == [l] and const_of(st) is not None:
+                vals.append(const_of(st))
             else:
                 vals = None
                 break
@@ -218,7 +231,11 @@ def _state_machine_ok(b, B, rest, rsucc):
     def switch_on(t):
         if t[0] != "switch" or t[1][0] not in ("C", "M") or len(t[1][1]) != 1:
             return None
-        return through_copies(t[1][1][0])
+        l0 = through_copies(t[1][1][0])
+        defs = B.defs.get(l0, [])
+        if len(defs) == 1 and defs[0][2] == "assign" and defs[0][3][2][0] == "Disc" and len(defs[0][3][2][1]) == 1:
+            return through_copies(defs[0][3][2][1][0])      # `match state` on an enum: switch on discriminant(state)
+        return l0
 
     def predicate_of(l):
         """name of the &self predicate whose result local l holds"""
@@ -241,7 +258,7 @@ def _state_machine_ok(b, B, rest, rsucc):
             x, v, preds = node
             for st in blocks[x]["s"]:
                 if st[0] == "A" and st[1] == [l]:
-                    v = st[2][1][3]
+                    v = const_of(st)
             t = blocks[x]["t"]
             sl = switch_on(t)
             out = []
@@ -593,7 +610,10 @@ class Families:
                     bad.append((m, x))
             for x in seen:
                 for (sig, bi, line) in G.virtual_calls.get(x, ()):
-                    bad.append((m, "dyn call in " + x))
+                    # a call through a pointer / dyn object whose possible targets are known is followed by reach() above (library functions have no
+                    # body and cannot call back); only a call with no known target could re-enter
+                    if not G.coerced_by_sig.get(sig):
+                        bad.append((m, "call with unknown target in " + x))
         self._scope = (not bad, "no Scope method reaches another borrowing Scope method or a dyn call" if not bad else "re-entrancy possible: %s" % bad[:3])
         return self._scope
 
